@@ -87,7 +87,9 @@ class Walker:
             ops += ["fast_matvec", "dmrg_hadamard", "amen_mv", "amen_mm", "amen_solve", "divide", "interpolate"]
         op = force if force is not None else rng.choice(ops)
         f = getattr(self, "op_" + op)
-        i = self.pick(self.small)
+        i = getattr(self, "force_target", None)
+        if i is None:
+            i = self.pick(self.small)
         if i is None:
             self.seed_objects()
             i = self.pick(self.small)
@@ -362,7 +364,10 @@ class Walker:
         rng = self.rng
         k = rng.randrange(len(x.N))
         R = x.R
-        if x.is_ttm:
+        if rng.random() < getattr(self, "p_same_shape", 0.4):
+            # a replacement with the layout of the core it replaces (the ALS-type use of set_core)
+            c = int_tensor(rng, list(x.cores[k].shape), x.cores[k].dtype)
+        elif x.is_ttm:
             c = int_tensor(rng, [R[k], rng.randint(1, 3), rng.randint(1, 3), R[k + 1]], x.cores[0].dtype)
         else:
             c = int_tensor(rng, [R[k], rng.randint(1, 4), R[k + 1]], x.cores[0].dtype)
